@@ -72,6 +72,10 @@ var embedRegistry = map[string]reflect.Type{
 // a tag-reformatting mangler derives a key from the name of an untagged
 // embedded field).
 var embedTypeWords = map[string][]string{
+	"EmbTint":    {"emb", "tint"},
+	"EmbBurst":   {"emb", "burst"},
+	"EmbDeep":    {"emb", "deep"},
+	"EmbSrc":     {"emb", "src"},
 	"EzEmbTint":  {"ez", "emb", "tint"},
 	"EzEmbBurst": {"ez", "emb", "burst"},
 }
